@@ -148,7 +148,9 @@ CLAIMS.update({
               'arbitrary schedule. Theorems, for EVERY schedule: C16_thread_follows_its_tree (what a call returns is a leaf of its own sequential effect tree), C16_sequential_rules (every '
               'property proved of all leaves of the sequential tree for all store answers — the form of the theorems of C01..C19 — holds for concurrent calls), instances C16_no_panic, '
               'C16_only_if_cached, C16_background_no_panic; C16_store_keys (no interleaving makes a call write under a key of a URI it was not asked for); '
-              'C16_background_ignores_the_returned_response (the background program depends on the value handed to the caller only through its identifier). The run executes generated '
+              'C16_background_ignores_the_returned_response (the background program depends on the value handed to the caller only through its identifier), C16_late_304_not_merged, and '
+              'C16_right_resource (under every schedule, what a finished call returned has no body or the body of an origin call for a request with the same URL key: the store invariant — every entry under a '
+              'variant key of the URL key whose request produced its body, every index listing variant keys of its own URL key — is kept by every single step of every thread). The run executes generated '
               'concurrent phases on the real transport under a seeded scheduler at exactly that granularity (testing/synctest), replays the recorded schedules on the extracted model and '
               'compares results and labelled operation traces; snapshots every returned response and request and re-checks them after all later activity; and runs a free-running stress on '
               'memcache and fscache under the Go race detector with per-response consistency checks.'),
@@ -160,12 +162,14 @@ CLAIMS.update({
         text=('Theorems C03_key_sound (for all pairs of http/https URLs of the domain url_wf — reg-name or bracketed IP-literal host, optional numeric port, empty or absolute path with '
               'well-formed escapes, any query bytes — equal cache keys imply equal RFC 3986 §6.2.2-6.2.3 normal forms: URLs differing in scheme, host, port, path bytes or query bytes after '
               'normalisation never share a key), C03_key_complete (the converse), C03_different_uris_different_keys, C03_lookup_by_key (a plain GET consults exactly the index under the key '
-              'of its URL), C03_not_plain_get_bypasses_store (a request that is not a GET without Range never reads or writes a stored response and is answered by the origin). The normal form '
+              'of its URL), C03_not_plain_get_bypasses_store (a request that is not a GET without Range never reads or writes a stored response and is answered by the origin), and at history level '
+              'C03_history_provenance / C03_history_equivalent_uri: along EVERY sequential history from an empty store (any requests, origin script, timing) a response handed to the caller carries '
+              'no body or the body of an origin call made for a request with the same URL key — hence, by key soundness, an equivalent URI. The normal form '
               'is written after the RFC, not after the code. The run evaluates monitor mon_C03 (the body served was produced by an earlier plain GET for an equivalent URI) on generated '
               'histories with near-miss URLs (case, escapes, default and explicit ports, IPv6 literals, dot and empty segments, non-ASCII bytes), reports how many generated URLs lie in '
               'url_wf, and compares model and implementation.'),
         note=COMMON_NOTE + ' The key theorems speak about parsed URLs (net/url.Parse is modelled for the generated grammar: no userinfo, no opaque form); URLs outside url_wf (e.g. a bracketed host '
-             'without a colon) are covered by the run only. The history-level statement is checked by the monitor, not proved over histories.'),
+             'without a colon) are covered by the run only. The variant and plain-GET parts of the history-level statement are checked by the monitor (C04 / mon_C03), the resource part is proved.'),
 })
 CLAIMS.update({
     'C05': dict(
